@@ -1624,9 +1624,13 @@ static void setTypes(TokenList &tokenList)
     for (Token *tok = tokenList.front(); tok; tok = tok->next()) {
         if (Token::simpleMatch(tok, "sizeof (")) {
             for (Token *typeToken = tok->tokAt(2); typeToken->str() != ")"; typeToken = typeToken->next()) {
-                if (typeToken->type())
+                // Token keeps type/variable/function/enumerator in one slot: never overwrite a
+                // variable, function or enumerator, and never store a null type
+                if (typeToken->type() || !typeToken->isName() || typeToken->varId() != 0 || typeToken->function() || typeToken->enumerator())
                     continue;
-                typeToken->type(typeToken->scope()->findType(typeToken->str()));
+                const ::Type * const recordType = typeToken->scope()->findType(typeToken->str());
+                if (recordType)
+                    typeToken->type(recordType);
             }
         }
     }
